@@ -251,6 +251,13 @@ fn literal_wrappers(m: &Model, ks: &[usize]) -> Vec<(String, String)> {
     res
 }
 
+/// Inline markup sequences in every markup-bearing context, including block elements whose last
+/// token meets the closing bracket (the markup edges the skeleton model reaches only at depth 3).
+fn prose_extra(thorough: bool) -> ExtraLevel {
+    let n = if thorough { 2 } else { 1 };
+    ExtraLevel { name: format!("prose sequences <= {n} in markup contexts and at markup edges"), inputs: families::prose(n, false) }
+}
+
 fn plan_for(id: &str, thorough: bool) -> Option<Plan> {
     let m = Model::new();
     let std_policy = |tabs_sparse: &[usize]| CfgPolicy::standard(if thorough { 400 } else { 160 }, &[2], tabs_sparse);
@@ -261,7 +268,10 @@ fn plan_for(id: &str, thorough: bool) -> Option<Plan> {
         "C01" => Plan {
             oracle: Box::new(oracles::tree::C01),
             levels: full_levels(&m, thorough, model::FORMS_ALL, model::FORMS_QUICK, &["nl", "bc", "lc", "sp", "none"]),
-            extra: vec![ExtraLevel { name: "whitespace spellings (mixed newline styles, long runs)".into(), inputs: families::ws_spellings() }],
+            extra: vec![
+                ExtraLevel { name: "whitespace spellings (mixed newline styles, long runs)".into(), inputs: families::ws_spellings() },
+                prose_extra(thorough),
+            ],
             policy: std_policy(sparse),
             assumptions: vec![two_uses, wrapper, "typst_syntax 0.13.1 is the reference parser (same version as the subject's)".into()],
             model: m,
@@ -310,7 +320,7 @@ fn plan_for(id: &str, thorough: bool) -> Option<Plan> {
                     full_levels(&m, false, model::FORMS_ALL, model::FORMS_QUICK, &["nl"]).into_iter().find(|l| l.name.starts_with("codeblock,let,arg/chains")).unwrap(),
                 ])
             },
-            extra: vec![],
+            extra: vec![prose_extra(thorough)],
             policy: std_policy(sparse),
             assumptions: vec![two_uses, wrapper],
             model: m,
@@ -318,7 +328,7 @@ fn plan_for(id: &str, thorough: bool) -> Option<Plan> {
         "C04" => Plan {
             oracle: Box::new(oracles::basic::C04),
             levels: full_levels(&m, thorough, model::FORMS_ALL, model::FORMS_QUICK, &["lc", "bc", "nl", "none"]),
-            extra: vec![],
+            extra: vec![prose_extra(thorough)],
             policy: std_policy(sparse),
             assumptions: vec![two_uses, wrapper],
             model: m,
@@ -395,13 +405,13 @@ fn plan_for(id: &str, thorough: bool) -> Option<Plan> {
         },
         "C10" => {
             let wr = literal_wrappers(&m, if thorough { &[0, 1, 2] } else { &[0, 1] });
-            let wr2 = if thorough { literal_wrappers(&m, &[3]).into_iter().step_by(97).collect() } else { vec![] };
+            let wr2 = if thorough { literal_wrappers(&m, &[3]).into_iter().step_by(997).collect() } else { vec![] };
             let mut extra = vec![
                 ExtraLevel { name: "literal alphabet x context spines".into(), inputs: families::literals_in(&wr) },
                 ExtraLevel { name: "markup literal alphabet x markup contexts".into(), inputs: families::markup_literals() },
             ];
             if thorough {
-                extra.push(ExtraLevel { name: "literal alphabet x every 97th k=3 spine".into(), inputs: families::literals_in(&wr2) });
+                extra.push(ExtraLevel { name: "literal alphabet x every 997th k=3 spine".into(), inputs: families::literals_in(&wr2) });
             }
             Plan {
                 oracle: Box::new(oracles::census::C10),
@@ -417,6 +427,7 @@ fn plan_for(id: &str, thorough: bool) -> Option<Plan> {
             levels: full_levels(&m, thorough, model::FORMS_ALL, model::FORMS_QUICK, &["sp", "tab", "nl", "bc_sp", "lc_sp"]),
             extra: vec![
                 ExtraLevel { name: "degenerate documents".into(), inputs: families::degenerate() },
+                ExtraLevel { name: "line ends inside verbatim text: carriers x blank characters x LF/CRLF/CR/mixed x clean/dirty remainder".into(), inputs: families::line_ends() },
                 ExtraLevel { name: "whitespace spellings (mixed newline styles, long runs)".into(), inputs: families::ws_spellings() },
             ],
             policy: std_policy(sparse),
@@ -483,7 +494,7 @@ fn plan_for(id: &str, thorough: bool) -> Option<Plan> {
                 oracle: Box::new(oracles::range::C13),
                 levels,
                 extra: vec![ExtraLevel { name: "single-character damages".into(), inputs: damaged }],
-                policy: CfgPolicy { widths: Widths::Fixed(vec![80, 0]), tabs_full: vec![2], tabs_sparse: vec![], reorder: vec![false] },
+                policy: CfgPolicy { widths: Widths::Fixed(vec![80, 0]), tabs_full: vec![2], tabs_sparse: if thorough { vec![4] } else { vec![] }, reorder: vec![false] },
                 assumptions: vec![
                     "format_source_range is called on Source::new(fixed FileId, text); one Source per (input, configuration)".into(),
                     "configurations: (w=80,tab=2), (w=0,tab=2); thorough adds tab=4".into(),
